@@ -22,10 +22,14 @@ inline void addParticle(FmmCase& c, const rm::Geo<Real>& g, const long cc[4], in
         case 1: t = (long double)(((unsigned(frac) * unsigned(d + 3) * 40503u) >> 3) % 1024u + 1u) / 1026.0L; break;
         case 2: t = dyadic ? 0.0L : 1.0L / 1026.0L; break;
         case 3: cell = g.n - 1; t = 1.0L; break;
+        case 5: t = dyadic ? 1.0L : 1025.0L / 1026.0L; break;      // next representable value below the upper face of the cell
+        case 6: t = dyadic ? 0.0L : 1.0L / 1026.0L; break;         // next representable value above the lower face
         default: t = dyadic ? 1.0L - 1.0L / 1024.0L : 1025.0L / 1026.0L; break;
         }
         long double x = (long double)g.corner[d] + ((long double)cell + t) * (long double)g.leafw[d];
         Real xr = Real(x);
+        if(dyadic && cls == 5) xr = std::nextafter(xr, -std::numeric_limits<Real>::infinity());
+        if(dyadic && cls == 6) xr = std::nextafter(xr, std::numeric_limits<Real>::infinity());
         for(int it = 0 ; it < 8 ; ++it){
             volatile Real rel = xr - g.corner[d];
             if(rel < 0) xr = std::nextafter(xr, std::numeric_limits<Real>::infinity());
@@ -71,7 +75,7 @@ inline FmmCase decode(const uint8_t* data, size_t size, int dim, int maxH, bool 
             for(int d = 0 ; d < dim ; ++d) cc[d] = long(fdp.ConsumeIntegral<uint8_t>()) % g.n;
             const int mult = 1 + fdp.ConsumeIntegralInRange<int>(0, 3);
             for(int m = 0 ; m < mult ; ++m){
-                const int cls = fdp.ConsumeIntegralInRange<int>(0, 4);
+                const int cls = fdp.ConsumeIntegralInRange<int>(0, 6);
                 const int frac = fdp.ConsumeIntegral<uint16_t>();
                 addParticle<double>(c, g, cc, cls, frac, dyadic, out);
             }
